@@ -254,35 +254,45 @@ func FromRat(r *big.Rat) Decimal {
 
 	denom := r.Denom()
 
-	if num.BitLen() > maxIntBits || denom.BitLen() > maxIntBits {
-		// One of the parts is beyond the exponent range of a Decimal even
-		// though the quotient may not be. Divide by powers of ten first.
-		snum, nexp := scaleInt(num)
-		sdenom, dexp := scaleInt(denom)
-
-		return Ldexp(FromInt(snum).Quo(FromInt(sdenom)), nexp-dexp)
+	if num.BitLen() > 113 || denom.BitLen() > 113 {
+		// One of the parts may not convert exactly (or may even be beyond the
+		// exponent range of a Decimal although the quotient is not), and
+		// rounding it before dividing would round the quotient twice.
+		return fromRatWide(num, denom)
 	}
 
 	return FromInt(num).Quo(FromInt(denom))
 }
 
-// maxIntBits is the bit length up to which every big.Int is within the
-// exponent range of a Decimal (2**20000 < 10**6021).
-const maxIntBits = 20000
+// fromRatWide returns num/denom rounded once: the quotient is computed as an
+// integer scaled by a power of ten large enough to leave several more digits
+// than a Decimal holds, a non-zero remainder is recorded by making that
+// integer odd (far below the rounding position, so it only acts as a sticky
+// flag), and the power of ten is taken out again after the conversion.
+func fromRatWide(num, denom *big.Int) Decimal {
+	n := new(big.Int).Abs(num)
 
-// scaleInt divides i by a power of ten so that the quotient has roughly
-// maxIntBits/2 bits, and returns the quotient along with the exponent of the
-// power of ten. Values that are already small enough are returned unchanged.
-func scaleInt(i *big.Int) (*big.Int, int) {
-	bl := i.BitLen()
-	if bl <= maxIntBits {
-		return i, 0
+	shift := (denom.BitLen()-n.BitLen())*30103/100000 + maxDigits + 7
+	if shift < 0 {
+		shift = 0
 	}
 
-	exp := (bl - maxIntBits/2) * 30103 / 100000
-	pow := new(big.Int).Exp(big.NewInt(10), big.NewInt(int64(exp)), nil)
+	if shift > 0 {
+		n.Mul(n, new(big.Int).Exp(big.NewInt(10), big.NewInt(int64(shift)), nil))
+	}
 
-	return new(big.Int).Quo(i, pow), exp
+	rem := new(big.Int)
+	n.QuoRem(n, denom, rem)
+
+	if rem.Sign() != 0 {
+		n.SetBit(n, 0, 1)
+	}
+
+	if num.Sign() < 0 {
+		n.Neg(n)
+	}
+
+	return Ldexp(FromInt(n), -shift)
 }
 
 // FromUint32 converts i into a Decimal.
